@@ -100,7 +100,7 @@ fn c01_base_scan_ident_char() {
 }
 
 //@ ob: id=C01/K/base_ident_literal kind=K-bounded fns=BaseParser::consume_identifier,BaseParser::expect_identifier bound="buffer <= 4 tokens; literal `ur`; format! stubbed"
-//@ desc: consume_identifier/expect_identifier keep wf, never move the cursor backwards and never touch the buffer
+//@ desc: consume_identifier/expect_identifier keep wf, never move the cursor backwards, never touch the buffer, and a match (Ok(true) / Ok(())) consumes at least the literal's length
 #[kani::proof]
 #[kani::unwind(8)]
 #[kani::stub(alloc::fmt::format, format_stub)]
@@ -111,11 +111,16 @@ fn c01_base_ident_literal() {
     let before = lexer_buf(&p.toks).clone();
     let c0 = p.toks.cursor();
     let cs: bool = kani::any();
-    if kani::any() {
-        let _ = p.consume_identifier("ur", cs);
+    // Ok(true) / Ok(()) means every character of the literal was matched by one scan_ident_char,
+    // each of which advances: the cursor has moved by at least the literal's length
+    let matched = if kani::any() {
+        let r = p.consume_identifier("ur", cs);
+        matches!(r, Ok(true))
     } else {
-        let _ = p.expect_identifier("ur", cs);
-    }
+        p.expect_identifier("ur", cs).is_ok()
+    };
     assert!(frame_ok(&p, &before, c0), "C01/K/base_ident_literal: frame");
+    assert!(!matched || p.toks.cursor() >= c0 + 2, "C01/K/base_ident_literal: a match consumes at least the literal's length");
+    kani::cover!(matched);
     kani::cover!(p.toks.cursor() == c0 + 2);
 }
